@@ -20,6 +20,9 @@ Definition w64 (x : Z) : Z := x mod two64.
 Definition align_forward (addr al : Z) : Z :=
   Z.land (w64 (addr + (al - 1))) (w64 (Z.lnot (al - 1))).
 
+(* x & ~(al-1) in usize *)
+Definition align_down (x al : Z) : Z := Z.land x (w64 (Z.lnot (al - 1))).
+
 (* ---------- finite word memory ---------- *)
 Definition mem := list (Z * Z).
 Fixpoint mget (m : mem) (k : Z) : Z :=
